@@ -160,6 +160,8 @@ class Folder:
             return _c(r)
         if k == "call":
             name = t[1]
+            if isinstance(name, str) and name.startswith("std::convert::num::<impl std::convert::From<") and name.endswith(">::from"):
+                return _ident(self, [self.ev(a, env, bind, depth) for a in t[2]])
             if isinstance(name, str) and name in STD_MODELS:
                 args = [self.ev(a, env, bind, depth) for a in t[2]]
                 return STD_MODELS[name](self, args)
@@ -259,7 +261,27 @@ def _expect(self, args):
     raise Unknown("unwrap/expect of a non-Some value")
 
 
+def _ident(self, args):
+    a = args[0]
+    while a[0] == "ref":
+        a = a[1]
+    return a
+
+
+def _unwrap_or(self, args):
+    a = args[0]
+    if a[0] == "agg" and a[3] in ("Some", "Ok"):
+        return a[4][0]
+    if a[0] == "agg" and a[3] in ("None",):
+        return args[1]
+    raise Unknown("unwrap_or of a non-constant")
+
+
 STD_MODELS = {
+    "std::num::NonZero::<T>::new_unchecked": _ident,
+    "std::num::NonZero::<T>::get": _ident,
+    "std::option::Option::<T>::unwrap_or": _unwrap_or,
+    "expect": _expect,
     "std::option::Option::<T>::expect": _expect,
     "std::option::Option::<T>::unwrap": _expect,
     "std::result::Result::<T, E>::unwrap": _expect,
